@@ -224,8 +224,33 @@ def judge(col, gen, base, pattern, inserts, tag):
 # ---- generic JSON ---------------------------------------------------------------
 def generic_case(col, r):
     from .. import nbd
-    kind = r.choice(["dict", "nested", "list"])
-    if kind == "list":
+    kind = r.choice(["dict", "nested", "list", "text"])
+    if kind == "text":
+        # a multi-line string merged line-wise: each side makes small in-line edits on lines of its own (never neighbours)
+        n = r.randrange(6, 18)
+        lines = ["step %02d of the procedure" % i for i in range(n)]
+        owners = ["-"] * n
+        i = r.randrange(2)
+        while i < n:
+            if r.random() < 0.45:
+                owners[i] = r.choice("LR")
+                i += 2
+            else:
+                i += 1
+        ll, rl, el = list(lines), list(lines), list(lines)
+        for i, o in enumerate(owners):
+            if o == "-":
+                continue
+            how = r.choice(["inline", "inline", "append", "prefix"])
+            new = {"inline": lines[i].replace("of", "of%s" % o.lower(), 1), "append": lines[i] + " (%s)" % o, "prefix": o + ": " + lines[i]}[how]
+            (ll if o == "L" else rl)[i] = new
+            el[i] = new
+        fin = r.choice(["\n", ""])
+        # (the string is an object member: as a LIST ITEM it would be one item that both sides replace - same position)
+        wrap = r.choice(["root", "member"])
+        mk = {"root": lambda t: {"text": t}, "member": lambda t: {"doc": {"body": t, "n": 1}}}[wrap]
+        base, loc, rem, exp = (mk("\n".join(x) + fin) for x in (lines, ll, rl, el))
+    elif kind == "list":
         n = r.randrange(3, 9)
         base = ["item%d" % i if r.random() < 0.7 else i * 10 + 1 for i in range(n)]
         owners = ["-"] * n
